@@ -161,10 +161,11 @@ int choose_next(int me, uint32_t en) {
 
 void deadlock() {
   G& G_ = gg();
-  std::string d = "no runnable thread:";
+  std::string d = G_.solo ? "solo run: the thread waits for a stopped thread:" : "no runnable thread:";
   for (int i = 1; i <= G_.nth; i++) {
     Th* t = G_.th[i];
     if (t->finished) continue;
+    if (G_.solo && i != G_.solo) continue;   // the other threads are stopped on purpose
     d += " T" + std::to_string(i) + (t->spinning ? "(spinning" : "(mutex");
     if (t->spinning) for (auto a : t->watch) { d += " " + sym_addr(a); if (d.size() > 400) break; }
     d += ")";
@@ -704,6 +705,8 @@ uint64_t step_count() { return (uint64_t)gg().steps; }
 const Result& partial_result() { return gg().res; }
 WStats wstats() { return gg().ws; }
 void set_solo(int tid, long budget) { G& G_ = gg(); G_.solo = tid; G_.solo_budget = budget; G_.solo_used = 0; }
+int solo_thread() { return gg().solo; }
+void end_execution() { abort_execution(); }
 bool is_freed(const void* p) { Block* b = find_block((uintptr_t)p); return b && b->freed; }
 Quiet::Quiet() { ++tl_in_rt; }
 Quiet::~Quiet() { --tl_in_rt; }
